@@ -11,6 +11,12 @@ CHECKS = {
  "C14": dict(cat="exploration", tech="proptest value multisets x key lists x input permutations vs exact-arithmetic reference order relation (validity predicate + cross-permutation preorder check)",
    text="Multisets of solution values over every term kind / numeric type / ill-typed literal, 1-3 ASC/DESC keys, each loaded in 3 input permutations; output must be a permutation and no pair may contradict the reference relation (kind order, exact SPARQL '<'); cross-permutation cycle check for preorder consistency.",
    note="Trusted: harness reference relation (exact decimal expansion of doubles, XSD dateTime order). Pairs that '<' cannot compare are unconstrained.", ref="5/C14, 11"),
+ "C03": dict(cat="exploration", tech="proptest datasets over full lexical/label/IRI alphabets; serialise -> parse round trip (sophia nt/nq/gnq) + independent W3C N-Quads reader + line-structure check",
+   text="Generated strict and RDF-star datasets over all escape-relevant characters, exotic blank labels, IP-literal IRIs, BCP47 tags; output must be one statement per LF-terminated line and re-read to exactly the input multiset by sophia's parsers and by an independent hand-written N-Quads reader.",
+   note="Trusted: nqread.rs (reviewed against the W3C grammar), MT conversions. Tags compared case-insensitively (drift counted). Labels starting with 'riog' excluded.", ref="5/C03, 11"),
+ "C04": dict(cat="exploration", tech="proptest shape-library datasets x config (pretty/stream, prefix maps, indentation, Turtle/TriG); parse-back + exact isomorphism oracle; abbreviation tokenizer for non-triviality",
+   text="Datasets assembled from blank-node shapes, well-/ill-formed rdf lists, annotations, shorthand-literal candidates and awkward local names; output must parse with the strict parser, contain no duplicate statement and be exactly isomorphic (backtracking search) to the input.",
+   note="Trusted: sophia's own strict Turtle/TriG parser as syntax judge, iso.rs exact isomorphism (budgeted; budget never hit). Generalized RDF and duplicate prefixes out of scope.", ref="5/C04, 11"),
 }
 NOT_APPLICABLE = []
 def main():
